@@ -120,7 +120,7 @@ PLACEMENTS = [
 ]
 
 
-def gen_module_specs(rnd, subsets, n_extra, n_edge=3):
+def gen_module_specs(rnd, subsets, n_extra, n_edge=3, modname=None):
     """One module: each kind-subset in `subsets` gives one function in a rotating placement; n_extra more random."""
     specs = []
     used = set()
@@ -163,7 +163,64 @@ def gen_module_specs(rnd, subsets, n_extra, n_edge=3):
     for _ in range(n_extra):
         present = [k for k in KINDS if rnd.random() < 0.5]
         add(present, rnd.choice(PLACEMENTS))
+    specs += annotated_defaulted_specs(rnd, len(specs))
+    specs += module_named_specs(rnd, len(specs), modname)
+    specs += same_named_nested_specs(rnd, len(specs))
     return specs
+
+
+def annotated_defaulted_specs(rnd, base):
+    """source parameters that are both ANNOTATED and DEFAULTED in every position kind (what OMIT / IGNORE / REPLICATE
+    each have to carry over: the default stays whatever happens to the annotation)"""
+    out = []
+    for j, (path, fkind) in enumerate(rnd.sample([([], "MODULE"), (["Outer"], "INSTANCE"), (["Outer"], "STATIC"),
+                                                  (["Zeta"], "CLASS")], 2)):
+        receiver = {"INSTANCE": "self", "CLASS": "cls"}.get(fkind)
+        params = [PSpec(receiver, "PK")] if receiver else []
+        shape = rnd.choice([["PO", "PK", "KO"], ["PK", "PK", "VP", "KO", "KO", "VK"], ["PO", "PO", "PK", "KO"], ["PK", "KO"]])
+        if receiver and "PO" in shape:
+            params[0].kind = "PO"
+        for i, k in enumerate(shape):
+            if k in ("VP", "VK"):
+                params.append(PSpec(f"v{i}", k, None, rnd.choice([None, "int"])))
+            else:
+                params.append(PSpec(f"d{i}", k, rnd.choice(["None", "other"]), rnd.choice(SRC_ANNOS[:5])))
+        out.append(FSpec(f"annd{base + j}", params, list(path), fkind, rnd.choice(["plain", "coroutine"]),
+                         rnd.choice([None, "int"])))
+    return out
+
+
+def module_named_specs(rnd, base, modname):
+    """parameters and functions NAMED like (or prefixed by) a module the same signature imports a type from: the module
+    prefix stripping of FunctionStub.render must leave them alone"""
+    out = []
+    s = FSpec(f"to_cents{base}", [PSpec("decimal", "PK"), PSpec("decimal_places", "PK", "None"), PSpec("typing", "KO", "other")],
+              [], "MODULE", "plain")
+    s.force = {"decimal": "Decimal", "decimal_places": "Optional[int]", "typing": "List[int]", "return": "Decimal"}
+    out.append(s)
+    s = FSpec("fractions", [PSpec("fractions", "PO"), PSpec("uuid", "PK", "None"), PSpec("typing_extra", "VP")],
+              [], "MODULE", rnd.choice(["plain", "coroutine"]))
+    s.force = {"fractions": "List[Fraction]", "uuid": "UUID", "typing_extra": "Optional[str]", "return": "Fraction"}
+    out.append(s)
+    if modname:
+        # the fixture module's own name is in strip_modules whenever a signature mentions one of its classes
+        s = FSpec(modname, [PSpec(modname, "PK"), PSpec(modname + "_x", "KO", "None")], ["Outer"], "STATIC", "plain")
+        s.force = {modname: "Outer", modname + "_x": "Outer", "return": "Outer"}
+        out.append(s)
+    return rnd.sample(out, 2) if len(out) > 2 else out
+
+
+def same_named_nested_specs(rnd, base):
+    """nested classes with the same simple name in different outer classes, a top-level class of that name, and
+    same-named methods in all of them"""
+    if rnd.random() < 0.5:
+        return []
+    out = []
+    for path in (["Shapes", "Meta"], ["Colors", "Meta"], ["Meta"]):
+        for name in ("describe", f"only_{path[0].lower()}"):
+            fkind = rnd.choice(["INSTANCE", "INSTANCE", "STATIC", "CLASS"])
+            out.append(make_spec(rnd, name, path, fkind, max_params=3))
+    return out
 
 
 def make_spec(rnd, name, path, fkind, max_params=6):
